@@ -217,6 +217,7 @@ fn main() {
                 std::process::exit(3)
             });
             let mut rep = (p.run)(&ctx);
+            infra::drain_escaped_panics(&ctx.id, &mut rep);
             if p.dbg_part && !ctx.is_dbg() {
                 match run_dbg_sub(&ctx) {
                     Ok(mut r) => {
@@ -245,12 +246,16 @@ fn main() {
             watchdog(&ctx);
             liveness(&ctx, true);
             let p = props::lookup(&ctx.id).unwrap_or_else(|| std::process::exit(3));
-            let rep = (p.run)(&ctx);
+            let mut rep = (p.run)(&ctx);
+            infra::drain_escaped_panics(&ctx.id, &mut rep);
             println!("REPORT {}", serde_json::to_string(&rep).unwrap());
         }
         "replay" => {
             let path = args.get(1).unwrap_or_else(|| usage());
             std::process::exit(props::replay(path));
+        }
+        "c10-hugek" => {
+            std::process::exit(props::c10::huge_k_child());
         }
         "mem" => {
             std::process::exit(props::c11::mem_driver(&args[1..]));
